@@ -10,7 +10,7 @@
 From Coq Require Import ZArith List Bool Arith.
 From V Require Import Val StreamLts Cache LtsWire.
 Import ListNotations.
-Open Scope Z_scope.
+Local Open Scope Z_scope.
 
 (* ---------- the observation, decoded ---------- *)
 Record cobs := {
